@@ -866,6 +866,22 @@ class C15(Spec):
     def parts(self):
         return [Main(), HashPart(), SuggPart(), EdgePart()]
 
+    def extra_stages(self, rep, tier, rng, broken):
+        """translator tie: the constants tools/trules/bloom.py generated == the values in the compiled headers."""
+        import re
+        exe = os.path.join(core.BUILD, "bloom_h")
+        gen_file = os.path.join(core.LEAN, "DSGen", "Bloom.lean")
+        if not (os.path.exists(exe) and os.path.exists(gen_file)):
+            return
+        rc, out = core.sh([exe, "consts"], timeout=30, env=core.ASAN_ENV)
+        compiled = dict(l.split() for l in out.splitlines() if len(l.split()) == 2)
+        generated = dict(re.findall(r"^def (\w+) : Nat := (\d+)", open(gen_file).read(), flags=re.M))
+        diff = sorted(k for k in set(compiled) | set(generated) if compiled.get(k) != generated.get(k))
+        rep.cov["translator_constants_checked"] = len(generated)
+        if rc != 0 or diff:
+            broken.append(("translator", "tools/trules/bloom.py", "generated != compiled for %s (compiled %s, generated %s)" % (
+                diff, {k: compiled.get(k) for k in diff}, {k: generated.get(k) for k in diff})))
+
 
 SPEC = C15()
 
